@@ -134,7 +134,7 @@ class Check:
             "property_id": self.pid,
             "tier": self.tier,
             "seed": self.seed,
-            "level": "other",
+            "level": getattr(self, "level", "other"),
             "coverage": {
                 "explanation": self.explanation,
                 "technique": self.technique,
@@ -161,6 +161,7 @@ class Check:
             "wall_s": round(time.time() - self.t0, 2),
             "violations": len(real),
         }
+        ev["coverage"].update(getattr(self, "extra_cov", {}))
         with open(os.path.join(EVID, self.pid + ".json"), "w") as fh:
             json.dump(ev, fh, indent=1, default=str)
         print("%s: tier=%s configs=%s obligations=%d discharged=%d violations=%d known=%d wall=%.1fs" % (
